@@ -58,12 +58,12 @@ impl OperationTransformVisitor<'_> {
             return;
         }
 
-        if status != Status::NotModified {
-            self.transform_status.status = status;
+        if status == Status::Modified {
+            self.transform_status.telemetry.inc(tag);
         }
 
-        if self.transform_status.status == Status::Modified {
-            self.transform_status.telemetry.inc(tag);
+        if status != Status::NotModified {
+            self.transform_status.status = status;
         }
     }
 }
